@@ -1,7 +1,7 @@
 (* Executable entry point for the C06 correspondence: aliased butt-cap hairlines of polylines whose
    segments lie inside the clip (no float clipping on that route). *)
 From Coq Require Import ZArith Bool List.
-From TS Require Import Base.F32 Model.Rect Model.PathBuilder Model.Conic Model.RunC14 Model.Edge Model.Hairline.
+From TS Require Import Base.F32 Model.Rect Model.PathBuilder Model.Conic Model.RunC14 Model.Edge Model.Hairline Model.LineClip.
 Import ListNotations.
 Local Open Scope Z_scope.
 
@@ -48,6 +48,21 @@ Definition run_hair_spans (l : list Z) : list Z :=
               | None => [-9]
               | Some bl => flat_map (fun b => [fst b; snd b]) bl
               end
+          end
+      end
+  | _ => [-3]
+  end.
+
+(* args: x0 y0 x1 y1  l t r b (bit patterns) -> -1 (rejected) | -2 (clip rect invalid) | x0' y0' x1' y1' *)
+Definition run_line_clip (l : list Z) : list Z :=
+  match l with
+  | [x0; y0; x1; y1; cl; ct; cr; cb] =>
+      match from_ltrb (fz cl) (fz ct) (fz cr) (fz cb) with
+      | None => [-2]
+      | Some clip =>
+          match Model.LineClip.intersect (pz x0 y0) (pz x1 y1) clip with
+          | None => [-1]
+          | Some (p, q) => [F32.to_bits (px p); F32.to_bits (py p); F32.to_bits (px q); F32.to_bits (py q)]
           end
       end
   | _ => [-3]
